@@ -36,7 +36,7 @@ SPEC = {
 }
 
 CATS = [('Food', 'Grocery'), ('Food', 'Coffee'), ('Bills', 'Rent'), ('Shopping', 'Online'), ('Subscriptions', 'Streaming'), ('Travel', '')]
-TAGS = ['business', 'recurring', 'Large']
+TAGS = ['business', 'recurring', 'Large', 'S\u00fc\u00dfes', '\u039b\u039f\u0393\u0391\u03a1\u0399\u0391\u03a3\u039c\u038c\u03a3']
 SPECIAL = ['income', 'transfer', 'investment', 'Income', 'TRANSFER']
 
 
@@ -48,8 +48,9 @@ def gen_txns(rnd):
         cat, sub = rnd.choice(CATS)
         base = rnd.sample(TAGS, rnd.randint(0, 2))
         special = [rnd.choice(SPECIAL)] if rnd.random() < .15 else []
-        style = rnd.choice(['monthly', 'random', 'burst', 'single'] + (['leap'] if 2024 in years else []))
-        n = {'monthly': rnd.randint(3, 20), 'random': rnd.randint(1, 25), 'burst': rnd.randint(2, 10), 'single': 1, 'leap': rnd.randint(2, 5)}[style]
+        style = rnd.choice(['monthly', 'random', 'burst', 'single', 'yearedge'] + (['leap'] if 2024 in years else []))
+        n = {'monthly': rnd.randint(3, 20), 'random': rnd.randint(1, 25), 'burst': rnd.randint(2, 10), 'single': 1, 'leap': rnd.randint(2, 5),
+             'yearedge': rnd.randint(2, 6)}[style]
         y0, m0 = rnd.choice(years), rnd.randint(1, 12)
         for k in range(n):
             if style == 'monthly':
@@ -58,6 +59,10 @@ def gen_txns(rnd):
                 d = datetime(yy, mm, rnd.choice([1, 5, 15, 28]))
             elif style == 'burst':
                 d = datetime(y0, m0, rnd.choice([3, 3, 4, 10, 20, 21]))
+            elif style == 'yearedge':
+                # the first and the last days of ONE calendar year (they share neither a week nor, in ISO terms, always a year)
+                ye = rnd.choice(years)
+                d = rnd.choice([datetime(ye, 1, 1), datetime(ye, 1, 3), datetime(ye, 1, 6), datetime(ye, 12, 29), datetime(ye, 12, 30), datetime(ye, 12, 31)])
             elif style == 'leap':
                 d = rnd.choice([datetime(2024, 2, 29), datetime(2024, 2, 29), datetime(2024, 2, 15), datetime(2024, 2, 22), datetime(2024, 3, 1), datetime(2024, 12, 31)])
             else:
@@ -270,7 +275,7 @@ def gfilter(rnd, d=2):
     if c == 5:
         return 'subcategory == "%s"' % rnd.choice(['Grocery', 'COFFEE', 'Rent', ''])
     if c == 6:
-        return '"%s" %s tags' % (rnd.choice(['business', 'Recurring', 'large', 'zzz', 'extra']), rnd.choice(['in', 'not in']))
+        return '"%s" %s tags' % (rnd.choice(['business', 'Recurring', 'large', 'zzz', 'extra', 's\u00fc\u00dfes', 'S\u00dc\u00dfES', '\u03bb\u03bf\u03b3\u03b1\u03c1\u03b9\u03b1\u03c3\u03bc\u03cc\u03c2', 'sFsses']), rnd.choice(['in', 'not in']))
     if c == 7:
         return rnd.choice(['true', 'True', 'merchant == "m1"', 'months == count(sum(by("month")))', 'is_freq', 'not is_freq', 'merchant != "M2"'])
     if c == 8:
